@@ -945,3 +945,124 @@ Proof.
                  = (Event_FramePre, payload) :: char_events true id (tags todo) os') by reflexivity.
     rewrite He, evs_len_cons. cbn [snd]. lia.
 Qed.
+
+(* ---- a whole frame history ---- *)
+Definition step_frames (v : version) (L : layout) (fro : frames) (f : aframe) : frames :=
+  if vgte v 3 0 then add_frame v L fro f else add_open (closef L fro) f.
+
+Definition frames_run (v : version) (L : layout) (fr0 : frames) (fs : list aframe) : frames :=
+  fold_left (step_frames v L) fs fr0.
+
+Definition next_ok (fro : frames) (z : Z) : Prop :=
+  match last (map Some (f_ids fro)) None with Some l => (l + 1)%Z = z | None => z = FIRST_INDEX end.
+
+(* what is known of the state between frames *)
+Record between (v : version) (L : layout) (slots : list (N * bool)) (fro : frames) : Prop := {
+  bt_shape : shape v (closef L fro);
+  bt_inv : finv (closef L fro);
+  bt_tags : tags (f_chars (closef L fro)) = slots;
+  bt_ports : Forall (fun c => (sl_port c < 256)%N) (f_chars (closef L fro));
+  bt_closed : vgte v 3 0 = true -> closef L fro = fro
+}.
+
+Lemma ports_add L chars os : length chars = length os ->
+  Forall (fun c => (sl_port c < 256)%N) chars -> Forall (fun c => (sl_port c < 256)%N) (map2 (add_slot L) chars os).
+Proof.
+  revert os. induction chars as [|c cs IH]; intros [|o os] Hl Hp; cbn in *; try discriminate; [constructor|].
+  inversion Hp; subst. constructor; [assumption|apply IH; [lia|assumption]].
+Qed.
+
+Lemma between_add v L slots fr f :
+  shape v fr -> finv fr -> tags (f_chars fr) = slots -> Forall (fun c => (sl_port c < 256)%N) (f_chars fr) ->
+  length (af_slots f) = length slots ->
+  between v L slots (add_frame v L fr f).
+Proof.
+  intros Hsh Hinv Htags Hports Hl.
+  assert (Hlen : length (f_chars fr) = length (af_slots f)) by (rewrite Hl, <- Htags; unfold tags; rewrite map_length; reflexivity).
+  pose proof (finv_add v L fr f Hinv Hlen) as Hinv'.
+  assert (Hc : closef L (add_frame v L fr f) = add_frame v L fr f) by (apply closef_closed; exact Hinv').
+  constructor; rewrite ?Hc.
+  - apply shape_add. exact Hsh.
+  - exact Hinv'.
+  - unfold add_frame. cbn [f_chars]. rewrite tags_add by exact Hlen. exact Htags.
+  - unfold add_frame. cbn [f_chars]. apply ports_add; assumption.
+  - intros _. reflexivity.
+Qed.
+
+Lemma ids_from_cons z f fs : ids_from z (f :: fs) = true -> af_id f = z /\ ids_from (z + 1) fs = true.
+Proof. cbn. intro H. apply andb_true_iff in H as [H1 H2]. apply Z.eqb_eq in H1. split; assumption. Qed.
+
+Lemma run_frames v L slots : forall fs s fro k,
+  ver s = v -> ps_layout s = L -> NoDup slots ->
+  between v L slots fro ->
+  Forall (fun f => wf_frame v L slots f = true) fs ->
+  (vgte v 2 2 = false -> exists z, next_ok fro z /\ ids_from z fs = true) ->
+  run_events (st s fro k) (flat_map (frame_events v slots) fs)
+  = Ok (st s (frames_run v L fro fs) (k + evs_len (flat_map (frame_events v slots) fs))) /\
+  between v L slots (frames_run v L fro fs).
+Proof.
+  induction fs as [|f fs IH]; intros s fro k Hver HL Hnd Hbt Hwf Hids.
+  - cbn. rewrite N.add_0_r. split; [reflexivity|exact Hbt].
+  - inversion Hwf as [|? ? Hwff Hwf']; subst.
+    destruct Hbt as [Bsh Binv Btags Bports Bclosed].
+    destruct (wf_frame_inv _ _ _ _ Hwff) as (Hid & _ & _ & Hits & Hlsl & _ & _).
+    cbn [flat_map]. rewrite run_events_app.
+    assert (Hstep : run_events (st s fro k) (frame_events (ver s) slots f)
+                    = Ok (st s (step_frames (ver s) (ps_layout s) fro f) (k + evs_len (frame_events (ver s) slots f))) /\
+                    between (ver s) (ps_layout s) slots (step_frames (ver s) (ps_layout s) fro f) /\
+                    (vgte (ver s) 2 2 = false -> next_ok (step_frames (ver s) (ps_layout s) fro f) (af_id f + 1))).
+    { unfold step_frames. destruct (vgte (ver s) 3 0) eqn:Hv30.
+      - rewrite <- (Bclosed eq_refl) at 1.
+        rewrite (Bclosed eq_refl) in Bsh, Binv, Btags, Bports.
+        rewrite (Bclosed eq_refl).
+        split; [apply (frame_ge30 s fro k f slots Hv30 Bsh Binv Btags Hnd Bports Hwff)|].
+        split; [apply between_add; assumption|].
+        intro H22. apply gte30_22 in Hv30. congruence.
+      - assert (Hlen : length (f_chars (closef (ps_layout s) fro)) = length (af_slots f))
+          by (rewrite Hlsl, <- Btags; unfold tags; rewrite map_length; reflexivity).
+        assert (Hit : af_items f = []) by exact Hits.
+        assert (Hbt' : between (ver s) (ps_layout s) slots (add_open (closef (ps_layout s) fro) f)).
+        { pose proof (close_add_open (ver s) (ps_layout s) _ f Hv30 Bsh Binv Hlen Hit) as Hc.
+          pose proof (between_add (ver s) (ps_layout s) slots _ f Bsh Binv Btags Bports Hlsl) as [A1 A2 A3 A4 A5].
+          rewrite closef_closed in A1, A2, A3, A4 by (apply finv_add; assumption).
+          constructor; rewrite ?Hc; try assumption. intro Hx. congruence. }
+        assert (Hnx : next_ok (add_open (closef (ps_layout s) fro) f) (af_id f + 1)).
+        { unfold next_ok, add_open. cbn [f_ids]. rewrite last_map_snoc. reflexivity. }
+        destruct (vgte (ver s) 2 2) eqn:Hv22.
+        + split; [apply (frame_22 s fro k f slots Hv22 Hv30 Bsh Btags Hnd Bports Hwff)|].
+          split; [exact Hbt'|intros _; exact Hnx].
+        + destruct (Hids eq_refl) as (z & Hnext & Hfrom). apply ids_from_cons in Hfrom as [Hz _]. subst z.
+          split; [apply (frame_lt22 s fro k f slots Hv22 Bsh Btags Hnd Bports Hwff Hnext)|].
+          split; [exact Hbt'|intros _; exact Hnx]. }
+    destruct Hstep as (Hrun & Hbt1 & Hnx1). rewrite Hrun.
+    destruct (IH s (step_frames (ver s) (ps_layout s) fro f) (k + evs_len (frame_events (ver s) slots f))%N eq_refl eq_refl Hnd Hbt1 Hwf') as [Hrun2 Hbt2].
+    { intro H22. destruct (Hids H22) as (z & _ & Hfrom). apply ids_from_cons in Hfrom as [Hz Hfrom']. subst z.
+      exists (af_id f + 1)%Z. split; [apply Hnx1; exact H22|exact Hfrom']. }
+    rewrite Hrun2. split; [|exact Hbt2].
+    f_equal. f_equal. rewrite evs_len_app. lia.
+Qed.
+
+(* closing the final state gives the fold of add_frame over the history *)
+Lemma close_run v L slots : forall fs fro,
+  between v L slots fro -> Forall (fun f => wf_frame v L slots f = true) fs ->
+  closef L (frames_run v L fro fs) = fold_left (add_frame v L) fs (closef L fro).
+Proof.
+  induction fs as [|f fs IH]; intros fro Hbt Hwf; [reflexivity|].
+  inversion Hwf as [|? ? Hwff Hwf']; subst.
+  destruct Hbt as [Bsh Binv Btags Bports Bclosed].
+  destruct (wf_frame_inv _ _ _ _ Hwff) as (_ & _ & _ & Hits & Hlsl & _ & _).
+  assert (Hlen : length (f_chars (closef L fro)) = length (af_slots f))
+    by (rewrite Hlsl, <- Btags; unfold tags; rewrite map_length; reflexivity).
+  cbn [frames_run fold_left]. fold (frames_run v L (step_frames v L fro f) fs).
+  assert (Hstep : between v L slots (step_frames v L fro f) /\ closef L (step_frames v L fro f) = add_frame v L (closef L fro) f).
+  { unfold step_frames. destruct (vgte v 3 0) eqn:Hv30.
+    - rewrite <- (Bclosed eq_refl) at 1 2. split.
+      + apply between_add; assumption.
+      + apply closef_closed. apply finv_add; assumption.
+    - assert (Hit : af_items f = []) by exact Hits.
+      pose proof (close_add_open v L _ f Hv30 Bsh Binv Hlen Hit) as Hc. split; [|exact Hc].
+      pose proof (between_add v L slots _ f Bsh Binv Btags Bports Hlsl) as [A1 A2 A3 A4 A5].
+      rewrite closef_closed in A1, A2, A3, A4 by (apply finv_add; assumption).
+      constructor; rewrite ?Hc; try assumption. intro Hx. congruence. }
+  destruct Hstep as [Hbt1 Hc1]. rewrite (IH _ Hbt1 Hwf'). rewrite Hc1. reflexivity.
+Qed.
